@@ -74,7 +74,10 @@ pub fn start(server: SocketAddr, timeout: Duration) -> Option<Proxy> {
     let handle = std::thread::spawn(move || {
         let Ok((c, _)) = listener.accept() else { return };
         let Ok(s) = TcpStream::connect_timeout(&server, timeout) else { return };
-        for x in [&c, &s] { let _ = x.set_read_timeout(Some(timeout)); let _ = x.set_write_timeout(Some(timeout)); let _ = x.set_nodelay(true); }
+        // no inactivity timeout while pumping: an idle direction must stay open as long as both ends keep it open
+        // (a safety net of 10 minutes only, so that a stuck peer cannot hang the harness for ever)
+        let _ = timeout;
+        for x in [&c, &s] { let _ = x.set_read_timeout(Some(Duration::from_secs(600))); let _ = x.set_write_timeout(Some(Duration::from_secs(600))); let _ = x.set_nodelay(true); }
         let (Ok(c2), Ok(s2s)) = (c.try_clone(), s.try_clone()) else { return };
         let (la, sa) = (l2.clone(), s2.clone());
         let t = std::thread::spawn(move || pump(c2, s2s, 0, la, sa));
@@ -100,6 +103,8 @@ impl Proxy {
         let t0 = std::time::Instant::now();
         while t0.elapsed() < timeout {
             if self.count(dir) >= n { return true; }
+            // nothing more will ever be recorded in a direction that has ended
+            if self.ended(dir) { return self.count(dir) >= n; }
             std::thread::sleep(Duration::from_micros(200));
         }
         false
